@@ -122,7 +122,7 @@ def bounded(tier, seed, repo_root):
     xs, cs = gt.xml_specs(), gt.csv_specs()
     jobs += [(('xml', rnd.choice(xs)), ('xml', rnd.choice(xs)), gt.OPTION_COMBOS[rnd.randrange(9)]) for _ in range(600 if tier == 'quick' else 6000)]
     jobs += [(('csv', rnd.choice(cs)), ('csv', rnd.choice(cs)), gt.OPTION_COMBOS[rnd.randrange(9)]) for _ in range(300 if tier == 'quick' else 3000)]
-    res = pmap(_run_pair, jobs, repo_root)
+    res = pmap(_run_pair, jobs, repo_root, skip_result=(0, [], []))
     fails = [f for _, fs, _ in res for f in fs]
     calls = sum(c for c, _, _ in res)
     classes = sorted({c for _, _, cs in res for c in cs})
